@@ -1098,17 +1098,13 @@ def probe_weighted(ctx, rng):
                         w32 = 'float32' in wname      # the reciprocal of a float32 weight is formed in float32
                         tol = PROBE64 if (dt == torch.float64 and not w32) else PROBE32
                         rp = dict(module=desc, weight=wn.tolist(), theta=th.reshape(-1).tolist())
-                        tint = wname.startswith('torch-int') and dt == torch.float64
-                        if tint and np.all(np.isfinite(o)) and o.min() >= 0 and tol < np.abs(o @ wn - 1).max() <= PROBE32:
-                            # 1/weight of an integer torch tensor is formed in float32 (torch's default dtype) although the module is float64
-                            ctx.fail('weighted-probability:torch-int-weight-float32-reciprocal', f'{desc}: sum_i w_i p_i = {(o @ wn)[0]!r}: only float32-accurate in a float64 module', rp)
-                        elif not np.all(np.isfinite(o)) or o.min() < 0 or np.abs(o @ wn - 1).max() > tol:
+                        if not np.all(np.isfinite(o)) or o.min() < 0 or np.abs(o @ wn - 1).max() > tol:
                             ctx.fail('weighted-probability:sum_w_p=1', f'{desc}: p = {o[0]}, sum_i w_i p_i = {(o @ wn)[0]!r} (required 1, p >= 0)', rp)
                         else:
                             ctx.probe_ok(('wprob', desc))
                         for s in range(th.shape[0]):
                             ops.append(f'C01 wprob {"softmax" if meth == "softmax" else "psphere"} {tbits(wn)} {tbits(th[s])}')
-                            expect.append(o[s]); tols.append(TOL64 if (dt == torch.float64 and not w32 and not wname.startswith('torch-int')) else TOL32)
+                            expect.append(o[s]); tols.append(TOL64 if (dt == torch.float64 and not w32) else TOL32)
     out = common.run_model(ops)
     for op, e, t, line in zip(ops, expect, tols, out):
         ctx.count('weighted-probability')
